@@ -11,7 +11,7 @@ PROPERTY = 'C11'
 META = {
     'level': 'exploration',
     'technique': 'reference-model runtime monitor: every run of the real regex machines compared with an independent NFA->DFA oracle (longest live prefix, acceptance, stored input, NonTerminal), oracle cross-checked against re.fullmatch',
-    'text': 'Expressions over control bytes (\\x00, \\x01, \\x02, \\x7f) are run as str and bytes machines (byte values coincide with small ints and booleans). All expression ASTs up to a size bound over {a,b} (literals, classes, negated classes, ".", alternation, grouping, * + ? {m,n}) are printed and handed to the real '
+    'text': 'A deterministic list of bounded repetitions of 128..400 steps whose first impossible symbol comes late (machines of several hundred states) with inputs walked out of the oracle\'s DFA. Expressions over control bytes (\\x00, \\x01, \\x02, \\x7f) are run as str and bytes machines (byte values coincide with small ints and booleans). All expression ASTs up to a size bound over {a,b} (literals, classes, negated classes, ".", alternation, grouping, * + ? {m,n}) are printed and handed to the real '
             'cpppo.regex; every string over {a,b,c} up to a length bound is run through the machine (whole, byte-at-a-time and in two-way chunkings through a chainable source) '
             'and the consumed prefix (source.sent), the stored input, machine.terminal and the NonTerminal failure are compared with the oracle. The same is done for '
             'regex_bytes with ASCII expressions and with multi-byte literals (UTF-8 byte language incl. truncated encodings), and for larger seeded expressions. '
